@@ -383,7 +383,9 @@ def text_forms(rng, bits, v):
            '0x%xg' % v, '0x%x ' % v, ' 0x%x' % v, '-%d' % v, '+%d' % v, '0x-%x' % v, '%x' % v, 'x%x' % v,
            '0x%x' % (1 << bits), '%d' % (1 << bits), '0x%x' % ((1 << bits) - 1 if bits else 0), '%d' % ((1 << bits) - 1 if bits else 0),
            '0x1%s' % ('0' * ((bits + 3) // 4)), '0b1%s' % ('0' * bits), '0o%o' % (1 << bits), '9' * (bits // 3 + 2),
-           '0x%xé' % v, '٠', '0z12', '0x%xz' % v, '1e3', '1.0', '0b102', '0o8', '12a']
+           '0x%xé' % v, '٠', '0z12', '0x%xz' % v, '1e3', '1.0', '0b102', '0o8', '12a',
+           # a multi-byte character straddling byte offset 2 (prefix sniffing must test is_char_boundary(2)), and neighbours
+           '1é', '€', '_ß', '7😀', '0€', '0é1', 'é', 'éé', '12é', 'é1', '😀', '%d€' % (v % 10)]
     s = list('0x%x' % v)
     if s:
         i = rng.randrange(len(s)); s[i] = rng.choice(TEXT_ALPHABET); out.append(''.join(s))
